@@ -746,6 +746,44 @@ func (h *harness) view(list string) [][2]int {
 	return out
 }
 
+// kind tovl: does the published configuration list an aggregator that a returned DelAggregator has shut down?
+func (h *harness) listsDeadAgg() bool {
+	_, _, _, aggs := h.tbl.VerifRawConfig()
+	for _, a := range aggs {
+		if h.aggDown[a] {
+			return true
+		}
+	}
+	return false
+}
+
+// viewRaw: the lists of the table of kind fe / tovl ([id, f] pairs) read off the published configuration
+func (h *harness) viewRaw(list string) [][2]int {
+	routes, bl, rws, aggs := h.tbl.VerifRawConfig()
+	out := [][2]int{}
+	switch list {
+	case "rw":
+		for _, r := range rws {
+			out = append(out, [2]int{rwID(r), 0})
+		}
+	case "bl":
+		for _, b := range bl {
+			id, f := blIDF(b)
+			out = append(out, [2]int{id, f})
+		}
+	case "agg":
+		for _, a := range aggs {
+			out = append(out, [2]int{aggIDOf(a), aggFOf(a)})
+		}
+	default:
+		for _, r := range routes {
+			sn := r.Snapshot()
+			out = append(out, [2]int{h.routeID(sn.Key), fOfPrefix(sn.Matcher.Prefix)})
+		}
+	}
+	return out
+}
+
 // the destinations that are currently reachable from the table (kind dest / rroute)
 func (h *harness) liveDests() map[*destination.Destination]bool {
 	live := map[*destination.Destination]bool{}
@@ -1230,13 +1268,23 @@ func (h *harness) overlap(o1, o2 step) {
 	h.drainRemoved(liveBefore)
 	snaps := h.capture()
 	views := map[string]interface{}{}
-	for _, l := range listNames {
-		views[l] = h.view(l)
+	src := "snapshot"
+	if table && h.listsDeadAgg() {
+		// Table.Snapshot() asks every listed aggregator's goroutine for a copy and would wait for ever for one that has
+		// shut down: the lists are read off the published configuration itself (what a Dispatch loads)
+		src = "config"
+		for _, l := range listNames {
+			views[l] = h.viewRaw(l)
+		}
+	} else {
+		for _, l := range listNames {
+			views[l] = h.view(l)
+		}
 	}
 	if !table {
 		views["rt"] = h.view("rt")
 	}
-	h.lg.Emit(map[string]interface{}{"ev": "aview", "views": views, "snaps": snaps, "g1": "shutdown", "locked": locked, "g2": g2})
+	h.lg.Emit(map[string]interface{}{"ev": "aview", "views": views, "viewsrc": src, "snaps": snaps, "g1": "shutdown", "locked": locked, "g2": g2})
 }
 
 func (h *harness) routesRaw() []route.Route {
